@@ -31,6 +31,7 @@ def optIntStr : Option Int → String
 
 def Err.cls : Err → String
   | .value .. => "ValueConstraintViolatedError"
+  | .valueNone .. => "ValueConstraintViolatedError"
   | .exceeded .. => "SizeConstraintExceededError"
   | .subceeded .. => "SizeConstraintSubceededError"
   | .anticipated .. => "AnticipatedSizeConstraintExceededError"
@@ -39,6 +40,7 @@ def Err.cls : Err → String
 
 def Err.str : Err → String
   | .value p t x => s!"ValueConstraintViolatedError path={pathStr p} type={t} value={x}"
+  | .valueNone p t => s!"ValueConstraintViolatedError path={pathStr p} type={t} value=None"
   | .exceeded _ cp m a v b => s!"SizeConstraintExceededError cpath={pathStr cp} max={m} already={a} violator={pathStr v} by={b}"
   | .subceeded _ cp m a => s!"SizeConstraintSubceededError cpath={pathStr cp} max={m} already={a}"
   | .anticipated _ cp m a v x b => s!"AnticipatedSizeConstraintExceededError cpath={pathStr cp} max={m} already={a} violator={pathStr v} value={x} by={b}"
